@@ -79,7 +79,7 @@ STATS = {"chol_contract_calls": 0, "chol_contract_max_residual": 0.0, "solver_ru
          "glue_..._of_which_rectangular_mappers": 0, "glue_..._of_which_mock_mappers": 0,
          # shapes of the active-set path according to the reference run (ref_path), over every solver case of the run
          "ref_path": {"runs": 0, "runs_not_finished_by_the_reference_run": 0, "runs_with_3plus_consecutive_swap_iterations": 0, "runs_with_3plus_consecutive_swap_iterations_followed_by_more": 0, "runs_with_4plus_consecutive_swap_iterations": 0,
-                      "runs_with_3plus_consecutive_non_growing_iterations": 0, "runs_with_more_than_10_outer_iterations": 0,
+                      "runs_with_3plus_consecutive_non_growing_iterations": 0, "runs_with_more_than_10_outer_iterations": 0, "runs_with_6plus_fix_constraint_steps": 0, "max_fix_constraint_steps": 0,
                       "runs_where_a_removed_parameter_re_enters": 0, "max_consecutive_swap_iterations": 0, "max_outer_iterations": 0},
          "mirror_exits_through_no_update_break": 0,
          "impl_exit": {"observed": 0, "through_the_no_update_break": 0, "raised": 0, "not_observable_locals_renamed": 0},
@@ -224,7 +224,8 @@ def margin_pos_only(A, b, uses_p):
 def ref_path(A, b, pinit=None):
     """Independent float re-run of the active-set method (plain numpy solves, no Cholesky updates, no no_update counter).  It is used
     ONLY to select inputs whose active-set path has a rare shape and to tally those shapes in the evidence -- never to decide agreement.
-    Returns (d, path); path[k] = (entered index, [indices removed during outer iteration k], entered index still passive at its end)."""
+    Returns (d, path); path[k] = (entered index, [indices removed during outer iteration k], entered index still passive at its end,
+    number of fix_constraint steps of the iteration)."""
     A = np.asarray(A, dtype=float); b = np.asarray(b, dtype=float)
     n = len(b); tol = EPS * n
     P = np.zeros(n, bool); d = np.zeros(n); s = np.zeros(n); path = []
@@ -252,7 +253,7 @@ def ref_path(A, b, pinit=None):
                 inner += 1
                 if inner > 500: return None, path
             d = s.copy(); w = b - A @ d
-            path.append((j, [int(i) for i in np.where(P0 & ~P)[0]], bool(P[j])))
+            path.append((j, [int(i) for i in np.where(P0 & ~P)[0]], bool(P[j]), inner))
             if len(path) > 200: return None, path
     except np.linalg.LinAlgError:
         return None, path
@@ -261,7 +262,7 @@ def ref_path(A, b, pinit=None):
 def swap_run(path):
     """longest run of consecutive outer iterations in which one parameter enters and a DIFFERENT one leaves (|P| unchanged, P changed)"""
     best = cur = 0
-    for j, rem, kept in path:
+    for j, rem, kept, *_ in path:
         if kept and len(rem) == 1: cur += 1; best = max(best, cur)
         else: cur = 0
     return best
@@ -270,7 +271,7 @@ def swaps_then_more(path, k=3):
     """longest run of consecutive swap iterations that is FOLLOWED by at least one more outer iteration (the state after the run is not
     yet optimal: leaving the loop there -- a stall test that is too coarse -- returns a non-KKT vector); 0 if shorter than k"""
     best = cur = 0
-    for t, (j, rem, kept) in enumerate(path):
+    for t, (j, rem, kept, *_) in enumerate(path):
         if kept and len(rem) == 1:
             cur += 1
             if t < len(path) - 1: best = max(best, cur)
@@ -280,7 +281,7 @@ def swaps_then_more(path, k=3):
 def nogrow_run(path):
     """longest run of consecutive outer iterations at whose end |P| has not grown"""
     best = cur = 0
-    for j, rem, kept in path:
+    for j, rem, kept, *_ in path:
         if (1 if kept else 0) - len(rem) <= 0: cur += 1; best = max(best, cur)
         else: cur = 0
     return best
@@ -288,7 +289,7 @@ def nogrow_run(path):
 def reentries(path):
     """number of times a parameter that was removed earlier enters the passive set again"""
     gone = set(); k = 0
-    for j, rem, kept in path:
+    for j, rem, kept, *_ in path:
         if j in gone: k += 1
         gone |= set(rem)
         if not kept: gone.add(j)
@@ -305,55 +306,65 @@ def tally_path(A, b, pinit):
     if sr >= 4: R["runs_with_4plus_consecutive_swap_iterations"] += 1
     if ng >= 3: R["runs_with_3plus_consecutive_non_growing_iterations"] += 1
     if len(path) > 10: R["runs_with_more_than_10_outer_iterations"] += 1
+    fs = sum(p_[3] for p_ in path)
+    if fs >= 6: R["runs_with_6plus_fix_constraint_steps"] += 1
+    R["max_fix_constraint_steps"] = max(R["max_fix_constraint_steps"], fs)
     if reentries(path): R["runs_where_a_removed_parameter_re_enters"] += 1
     R["max_consecutive_swap_iterations"] = max(R["max_consecutive_swap_iterations"], sr)
     R["max_outer_iterations"] = max(R["max_outer_iterations"], len(path))
     return sr
 
-def fan_system(rng, n):
+def fan_system(rng, n, nfans=None):
     """Directed generator for the rare active-set path `one enters, a different one leaves` repeated several times in a row.
-    Z has two `fan` rows: chain columns z_j = r_j (cos t_j, sin t_j) with angles t_1 > t_2 > ... > 0 closing in on the data direction
-    (1, 0) with shrinking gaps and norms r_j falling geometrically: the arg-max of the gradient picks the next LARGER column, the
-    sub-problem on {previous, new} has the data outside its cone, so the previous column leaves as the new one enters -- one swap per
-    chain column.  Decoration: columns behind the chain (never picked), shadowed copies of chain columns (smaller norm), a few random
-    ones, and optionally an extra block (more rows, weakly coupled) so that |P| > 2 while the swaps happen.  A = Z^T Z + k I with entries
-    in 1/256 units (exact doubles), b = Z^T x + e with a small negative e on the chain (keeps the chain out of the warm-start set, so
-    the production warm start walks the same path).  Whether a system really has the path is decided by `ref_path`, not assumed."""
+    A `fan` is a pair of rows of Z: chain columns z_j = r_j (cos t_j, sin t_j) with angles t_1 > t_2 > ... > 0 closing in on the data
+    direction (1, 0) with shrinking gaps and norms r_j falling geometrically: the arg-max of the gradient picks the next LARGER column,
+    the sub-problem on {previous, new} has the data outside its cone, so the previous column leaves as the new one enters -- one swap per
+    chain column (the dynamic range r_1 / r_L costs condition number, which limits one fan to about 4 swaps at cond <= 5e4).
+    Several fans on disjoint row pairs (block structure, weakly coupled) interleave their swaps: longer runs of consecutive swap
+    iterations, more fix_constraint steps and more outer iterations in one call, |P| > 2 while the swaps happen.
+    Decoration: columns behind a chain (never picked), shadowed copies of chain columns (smaller norm), a few random ones, and optionally
+    an extra block of ordinary columns on extra rows.  A = Z^T Z + k I with entries in 1/256 units (exact doubles), b = Z^T x + e with a
+    small negative e on the chains (keeps them out of the warm-start set, so the production warm start walks the same path).
+    Whether a system really has the path is decided by `ref_path`, not assumed."""
     import math
     unit = 16
+    if nfans is None: nfans = 1 if n < 12 else (rng.choice([1, 2, 2]) if n < 18 else rng.choice([1, 2, 3, 3]))
     me = rng.choice([0, 0, 0, 1, 2])                       # extra rows
-    ne = rng.randint(1, 3) if me and n >= 8 else 0          # extra columns (the second block)
+    ne = rng.randint(1, 3) if me and n >= 8 + 4 * nfans else 0          # extra columns (ordinary block)
     nf = n - ne
-    L = rng.randint(4, min(nf, 8))
-    g = rng.uniform(0.45, 0.8); q = rng.uniform(1.4, 2.4)
-    t0 = rng.uniform(55, 88); gap = t0 * (1 - g) * rng.uniform(0.8, 1.0)
-    t = [t0]
-    for j in range(1, L): t.append(t[-1] - gap); gap *= g
-    R = rng.uniform(20, 60)
-    cols = []; kinds = []
-    for j in range(L):
-        cols.append((R / q ** j, t[j])); kinds.append("c")
-    while len(cols) < nf:
-        u = rng.random()
-        if u < 0.4: cols.append((rng.uniform(1, R), rng.uniform(95, 175))); kinds.append("b")
-        elif u < 0.8:
-            j = rng.randrange(L); cols.append((R / q ** j * rng.uniform(0.2, 0.8), t[j] + rng.uniform(-2, 2))); kinds.append("s")
-        else: cols.append((rng.uniform(1, 6), rng.uniform(t0, 180))); kinds.append("o")
-    m = 2 + me
-    Zc = []; e = []
+    sizes = [nf // nfans + (1 if f < nf % nfans else 0) for f in range(nfans)]
+    m = 2 * nfans + me
     noise = rng.random() < 0.75
-    for (r, a), kd in zip(cols, kinds):
-        col = [Fraction(round(r * math.cos(math.radians(a)) * unit), unit), Fraction(round(r * math.sin(math.radians(a)) * unit), unit)]
-        col += [Fraction(rng.randint(-1, 1), 4) if rng.random() < 0.3 else Fraction(0) for _ in range(me)]     # weak coupling
-        Zc.append(col)
-        if not noise: e.append(Fraction(0))
-        elif kd in "cs": e.append(-Fraction(rng.randint(1, 4), 4))
-        else: e.append(Fraction(rng.randint(-4, 4), 4))
+    Zc = []; e = []
+    for f, sz in enumerate(sizes):
+        L = rng.randint(4, min(sz, 8))
+        g = rng.uniform(0.45, 0.8); q = rng.uniform(1.4, 2.4)
+        t0 = rng.uniform(55, 88); gap = t0 * (1 - g) * rng.uniform(0.8, 1.0)
+        t = [t0]
+        for j in range(1, L): t.append(t[-1] - gap); gap *= g
+        R = rng.uniform(20, 60)
+        cols = [(R / q ** j, t[j]) for j in range(L)]; kinds = ["c"] * L
+        while len(cols) < sz:
+            u = rng.random()
+            if u < 0.4: cols.append((rng.uniform(1, R), rng.uniform(95, 175))); kinds.append("b")
+            elif u < 0.8:
+                j = rng.randrange(L); cols.append((R / q ** j * rng.uniform(0.2, 0.8), t[j] + rng.uniform(-2, 2))); kinds.append("s")
+            else: cols.append((rng.uniform(1, 6), rng.uniform(t0, 180))); kinds.append("o")
+        for (r, a), kd in zip(cols, kinds):
+            col = [Fraction(rng.randint(-1, 1), 4) if (rng.random() < 0.15 and nfans > 1) else Fraction(0) for _ in range(m)]    # weak coupling between fans
+            col[2 * f] = Fraction(round(r * math.cos(math.radians(a)) * unit), unit)
+            col[2 * f + 1] = Fraction(round(r * math.sin(math.radians(a)) * unit), unit)
+            for r_ in range(2 * nfans, m):
+                if rng.random() < 0.3: col[r_] = Fraction(rng.randint(-1, 1), 4)
+            Zc.append(col)
+            if not noise: e.append(Fraction(0))
+            elif kd in "cs": e.append(-Fraction(rng.randint(1, 4), 4))
+            else: e.append(Fraction(rng.randint(-4, 4), 4))
     for _ in range(ne):
         sc = rng.choice([1, 2, 4])
-        col = [Fraction(rng.randint(-1, 1), 4) if rng.random() < 0.3 else Fraction(0) for _ in range(2)]
+        col = [Fraction(rng.randint(-1, 1), 4) if rng.random() < 0.3 else Fraction(0) for _ in range(2 * nfans)]
         col += [Fraction(sc * rng.randint(0, 3)) for _ in range(me)]
-        if all(v == 0 for v in col[2:]): col[2] = Fraction(sc)
+        if all(v == 0 for v in col[2 * nfans:]): col[2 * nfans] = Fraction(sc)
         Zc.append(col); e.append(Fraction(rng.randint(-2, 2), 4))
     perm = list(range(n)); rng.shuffle(perm)
     Z = [[Fraction(0)] * n for _ in range(m)]; ev = [Fraction(0)] * n
@@ -362,7 +373,9 @@ def fan_system(rng, n):
         ev[perm[j]] = e[j]
     k = Fraction(rng.choice([1, 1, 2, 4]), rng.choice([1, 2, 4, 8]))
     A = [[sum(Z[r_][i] * Z[r_][j] for r_ in range(m)) + (k if i == j else 0) for j in range(n)] for i in range(n)]
-    x = [Fraction(rng.randint(3, 9)), Fraction(0)] + [Fraction(rng.randint(-3, 6)) for _ in range(me)]
+    x = []
+    for f in range(nfans): x += [Fraction(rng.randint(3, 9)), Fraction(0)]
+    x += [Fraction(rng.randint(-3, 6)) for _ in range(me)]
     b = [sum(Z[r_][i] * x[r_] for r_ in range(m)) + ev[i] for i in range(n)]
     return A, b
 
